@@ -290,7 +290,7 @@ def run(ctx):
     ctx.assume('printed precision: %10.3e -> 5e-4 relative, %10.3f -> 5e-4 absolute', 'selectors whose threshold equals an attained value are skipped (C05 don\'t-care)',
                'parameter values are position-encoding: (model+1)*10^column, so any row mix-up is visible at printed precision')
     ctx.require_events('writers:called-with-positional-arguments', 'FitInfo.filter_table:post', 'text:write_parameters', 'text:write_parameter_ranges', 'text:extract_parameters', 'plot_params:observed', 'history:other-package-fitted-in-between', 'listing:results-already-cut-down')
-    ctx.require_regimes('additional:one-dictionary-for-every-package', 'additional:values-exactly-zero', 'additional:ints-and-floats', 'perm:identity', 'perm:reversed', 'perm:random', 'perm:name-sorted', 'selected:0', 'selected:1', 'selected:all', 'additional', 'additional:several', 'parameter:nan', 'extract:subset',
+    ctx.require_regimes('parameter:columns-of-mixed-types', 'additional:one-dictionary-for-every-package', 'additional:values-exactly-zero', 'additional:ints-and-floats', 'perm:identity', 'perm:reversed', 'perm:random', 'perm:name-sorted', 'selected:0', 'selected:1', 'selected:all', 'additional', 'additional:several', 'parameter:nan', 'extract:subset',
                         'input:file', 'input:object', 'input:list')
     n_pk = 8 if ctx.quick else 40
     did_plot = False
@@ -302,6 +302,15 @@ def run(ctx):
         names = gen.model_names(rng, n_models, str(rng.choice(['lex', 'mixed', 'num'])))
         colnames = ['P%d' % c for c in range(ncol)]
         params = {c: (np.arange(n_models) + 1.0) * 10.0 ** ci * (1 if ci % 2 == 0 else -1) for ci, c in enumerate(colnames)}
+        if ip % 3 == 1:
+            # columns of different types and non-integral values: the first one a 64-bit integer column (a grid index), the others
+            # floats with fractional parts (one in single precision)
+            params[colnames[0]] = (np.arange(n_models) * 3 + 7).astype(np.int64)
+            for ci, c in enumerate(colnames[1:], 1):
+                params[c] = params[c] * 0.854 + 0.1234
+                if ci == 2:
+                    params[c] = params[c].astype(np.float32)
+            ctx.regime('parameter:columns-of-mixed-types')
         if ncol >= 2 and ip % 3 == 0:
             params[colnames[-1]][int(rng.integers(n_models))] = np.nan      # a model without a value for one parameter
             ctx.regime('parameter:nan')
